@@ -39,6 +39,7 @@ Classes
 """
 
 import re
+import functools
 import warnings
 import numpy as np
 from scipy import interpolate as interp
@@ -1177,7 +1178,8 @@ class Cycles:
         self.mask_conditions = None
 
         self.metrics = dict()
-        self.compute_cycle_metric('is_good', self.phase, is_good, dtype=int)
+        self.compute_cycle_metric('is_good', self.phase,
+                                  functools.partial(is_good, phase_edge=phase_edge), dtype=int)
         if compute_timings:
             self.compute_cycle_timings()
 
